@@ -111,6 +111,9 @@ POLYS = dict(
     TRI_CW=[[0.125, 0.125], [0.5, 0.875], [0.875, 0.25]],
     EDGE=[[0.0, 0.25], [0.5, 0.25], [0.5, 0.75], [0.0, 0.75]],          # one side on the border u = 0
     CORNER=[[0.0, 0.0], [0.5, 0.0], [0.5, 0.5], [0.0, 0.5]],            # two sides on the border
+    # trims that run past the end of the domain (u = 1, v = 1): intersection vertices land exactly on the domain end
+    NOTCH_U1=[[0.75, 0.25], [1.125, 0.25], [1.125, 0.75], [0.75, 0.75]],
+    CORNER11=[[0.5, 0.5], [1.25, 0.5], [1.25, 1.25], [0.5, 1.25]],
 )
 QSPLINE = dict(degree=2, kv=[0.0, 0.0, 0.0, 0.25, 0.25, 0.5, 0.5, 0.75, 0.75, 1.0, 1.0, 1.0],
                pts=[[0.5, 0.1875], [0.8125, 0.1875], [0.8125, 0.5], [0.8125, 0.8125], [0.5, 0.8125], [0.1875, 0.8125], [0.1875, 0.5],
@@ -119,7 +122,7 @@ QSPLINE = dict(degree=2, kv=[0.0, 0.0, 0.0, 0.25, 0.25, 0.5, 0.5, 0.75, 0.75, 1.
 
 def _trim_specs(tier):
     out = []
-    for name in ('SQ', 'RECT', 'TRI', 'DIAMOND', 'TRI_CW', 'EDGE') + (('CORNER',) if tier == 'thorough' else ()):
+    for name in ('SQ', 'RECT', 'TRI', 'DIAMOND', 'TRI_CW', 'EDGE', 'NOTCH_U1', 'CORNER11') + (('CORNER',) if tier == 'thorough' else ()):
         for kind in ('spline', 'freeform'):
             for sense in (None, 0, 1):
                 out.append(dict(kind=kind, poly=name, sense=sense))
